@@ -53,17 +53,18 @@ TRUSTED = [
 # worker management
 # ---------------------------------------------------------------------------------------------------
 
-def run_tasks(ctx, tasks, per_batch_deadline=900):
+def run_tasks(ctx, tasks, per_batch_deadline=900, prefix=(), extra_env=None):
     """run tasks in worker processes; returns {id: res}.  A task during which the worker dies gets
     res = {"crash": exit status, "stderr": tail}; the worker is restarted on the remaining tasks."""
     results = {}
     todo = list(tasks)
     env = dict(os.environ, SPARSE_BACKEND="MLIR", PYTHONWARNINGS="ignore")
     env.pop("DEBUG", None)
+    env.update(extra_env or {})
     launches = 0
     while todo:
         launches += 1
-        p = subprocess.Popen([PY, str(WORKER)], stdin=subprocess.PIPE, stdout=subprocess.PIPE, stderr=subprocess.PIPE, env=env,
+        p = subprocess.Popen([*prefix, PY, str(WORKER)], stdin=subprocess.PIPE, stdout=subprocess.PIPE, stderr=subprocess.PIPE, env=env,
                              cwd=str(core.ROOT / "harness"))
         try:
             out, err = p.communicate(json.dumps(todo).encode(), timeout=per_batch_deadline)
@@ -755,6 +756,55 @@ def check_ownership(ctx, label, program, delete, res, case):
 
 
 # ---------------------------------------------------------------------------------------------------
+# thorough tier: a subset of the ownership sweep under valgrind's memcheck
+# ---------------------------------------------------------------------------------------------------
+
+def valgrind_leg(ctx, own_tasks, own_meta):
+    import shutil
+    import tempfile
+
+    vg = shutil.which("valgrind")
+    if not vg:
+        ctx.notes["valgrind"] = "not installed: skipped"
+        return
+    pick = [t for t in own_tasks if own_meta[t["id"]][0] in ("dense-add-views", "csr-asformat-reshape", "to_numpy-copy")]
+    pick = [t for i, t in enumerate(pick) if i % 5 == ctx.seed % 5][:14]
+    d = Path(tempfile.mkdtemp(prefix="verif-c20-vg-", dir="/var/tmp"))
+    try:
+        log = d / "vg.log"
+        t0 = time.time()
+        res = run_tasks(ctx, pick, per_batch_deadline=1500,
+                        prefix=(vg, "--tool=memcheck", "-q", "--error-exitcode=0", f"--log-file={log}", "--num-callers=16"),
+                        extra_env={"PYTHONMALLOC": "malloc"})
+        blocks, cur = [], None
+        for line in log.read_text(errors="replace").splitlines() if log.exists() else []:
+            body = line.split("== ", 1)[1] if "== " in line else ""
+            if body.startswith(("Invalid read", "Invalid write", "Invalid free", "Mismatched free")):
+                cur = [body]
+                blocks.append(cur)
+            elif cur is not None and body.strip():
+                cur.append(body.strip())
+            else:
+                cur = None
+        # the dynamic loader's word-wise strncmp over short strings is a well-known memcheck report, not the backend's
+        real = [b for b in blocks if not any(("dl-load.c" in x or "dl-open.c" in x or "ld-linux" in x) for x in b)]
+        ctx.notes["valgrind"] = {"programs_run": len(pick), "memcheck_errors": len(blocks), "outside_loader": len(real),
+                                 "wall_s": round(time.time() - t0, 1)}
+        for t in pick:
+            label, program, pm = own_meta[t["id"]]
+            case = {"program": label, "delete_order": pm, "under": "valgrind --tool=memcheck"}
+            ctx.case(f"own-valgrind:{label}", case, nontrivial=True)
+            r = res.get(t["id"], {})
+            if "crash" in r:
+                fail_c(ctx, "valgrind:crash", case, f"worker died under valgrind, exit status {r['crash']}")
+        if real:
+            case = {"programs": sorted({own_meta[t["id"]][0] for t in pick}), "under": "valgrind --tool=memcheck"}
+            fail_c(ctx, "valgrind:memcheck", case, f"{len(real)} invalid memory accesses, first: " + " | ".join(real[0][:8]))
+    finally:
+        shutil.rmtree(d, ignore_errors=True)
+
+
+# ---------------------------------------------------------------------------------------------------
 # comparisons
 # ---------------------------------------------------------------------------------------------------
 
@@ -842,6 +892,8 @@ def run(ctx):
         case = {"program": label, "delete_order": pm}
         ctx.case(f"own:{label}", case, nontrivial=True)
         check_ownership(ctx, label, program, pm, res[t["id"]], case)
+    if not ctx.quick or os.environ.get("C20_VALGRIND"):
+        valgrind_leg(ctx, own_tasks, own_meta)
     ctx.cov["rule"] = (
         "round trips: every dtype x rank 1-4 (NumPy), scipy kind x dtype x index width, CSF/COO constituent arrays x pointer/index widths; "
         "dense level orders: every permutation of rank<=3; operations: every pair of storage families per rank for add and asformat, "
@@ -1151,15 +1203,49 @@ def check_ops(ctx, tasks, meta, res):
 
 
 def replay(ctx, path):
-    """re-run the failing task of a replay file in a fresh worker"""
+    """re-run one recorded failing case in a fresh worker: an operation (the task is stored in the case), an
+    ownership program (rebuilt from the recorded seed/tier, one deletion order) or a dense-order round trip"""
     obj = json.loads(Path(path).read_text())
     f = obj.get("failure") or {}
-    case = f.get("case", {})
-    print(json.dumps({"replay": f.get("family"), "detail": f.get("detail"), "case": case}, indent=1, default=str)[:4000])
-    t = case.get("task")
-    if not t:
-        return 0
-    t = dict(t, id="replay", kind="op")
-    res = run_tasks(ctx, [t])
-    print(json.dumps(res, default=str)[:4000])
-    return 0
+    case, fam = f.get("case", {}), f.get("family")
+    print(f"replaying {fam}: {str(f.get('detail'))[:300]}")
+    ctx2 = core.Ctx(PID, obj.get("tier", ctx.tier), int(obj.get("seed", ctx.seed)))
+    if isinstance(case, dict) and "task" in case:
+        t = dict(case["task"], id="replay", kind="op")
+        a_specs = t["operands"]
+        arrs = [dec_vals(sp["vals"], sp["dtype"]).reshape(sp["shape"]) if sp["via"] in ("numpy", "scipy") else None for sp in a_specs]
+        res = run_tasks(ctx2, [t])
+        if any(x is None for x in arrs):
+            print(json.dumps(res, default=str)[:3000])
+            return 1
+        exp = arrs[0] + arrs[1] if t["op"] == "add" else (arrs[0].reshape(t["shape"]) if t["op"] == "reshape" else arrs[0])
+        meta = {"replay": {"op": t["op"], "fams": case.get("families", ["?"]), "dtype": case.get("dtype"), "expected": exp,
+                           "nd": exp.ndim, "to": t.get("shape")}}
+        check_ops(ctx2, [t], meta, res)
+    elif isinstance(case, dict) and "program" in case and "delete_order" in case:
+        rng = gen.rng_for(ctx2.seed, PID)
+        gen_roundtrips(ctx2, rng); gen_orders(ctx2, rng); gen_ops(ctx2, rng); gen_determine(ctx2, rng)   # same rng stream as run()
+        progs = {label: (program, names) for label, program, names in ownership_programs(ctx2, rng)}
+        if case["program"] not in progs:
+            print("program not in this tier")
+            return 1
+        program = progs[case["program"]][0]
+        t = {"id": "replay", "kind": "ownership", "program": program, "delete": case["delete_order"]}
+        res = run_tasks(ctx2, [t])
+        check_ownership(ctx2, case["program"], program, case["delete_order"], res["replay"],
+                        {"program": case["program"], "delete_order": case["delete_order"]})
+    elif fam == "to_numpy:order":
+        a = dec_vals(case["vals"], case["dtype"]).reshape(case["shape"])
+        t = {"id": "replay", "kind": "to_numpy_order", "operand": np_spec(a),
+             "format": {"factory": "dense", "ndim": a.ndim, "order": case["order"], "dtype": case["dtype"]}}
+        res = run_tasks(ctx2, [t])
+        check_orders(ctx2, [t], {"replay": {"a": a, "order": case["order"]}}, res)
+    else:
+        print("not a replayable case (see the replay file for the theorem / correspondence that no longer checks)")
+        return 1
+    bad = [g for g in ctx2.failures if g["leg"] == "C"]
+    for g in bad[:5]:
+        print("FAILS:", g["family"], g["detail"][:300], "" if not g.get("finding") else f"[known finding {g['finding']}]")
+    if not bad:
+        print("passes on the current tree")
+    return 1 if bad else 0
